@@ -7,9 +7,9 @@ D = 'DYN'
 BOUNDS = {
     'quick': 'extents<I,E...>: rank 0..2 every static/dynamic pattern with static values 0..4, rank 3 every static/dynamic mask plus zero/one-extent shapes (I = int); '
              'I = int8/size_t: every static/dynamic mask of rank 0..3; dynamic extents symbolic 0..4; multi-indices symbolic over the whole index type (in range); '
-             'layout_stride strides symbolic 1..16 with a symbolic ordering permutation; submdspan_extents slice-kind pattern symbolic (full/index/constant pair); mdarray over array<int, prod(max extents)>',
-    'thorough': 'as quick plus: rank 3 every pattern with static values 0..4 (I = int), rank 4 every static/dynamic mask plus zero/one-extent shapes, all eight index types int8..uint64 on every mask of rank 0..3; '
-                'dynamic extents symbolic 0..8 (rank <= 3), strides 1..64',
+             'layout_stride strides symbolic 1..16 with a symbolic ordering permutation; submdspan_extents slice-kind pattern symbolic (full/index/constant pair); mdarray over array<int, prod(max extents) capped at 32>',
+    'thorough': 'as quick plus: rank 3 every pattern with static values 0..4 (I = int), rank 4 every static/dynamic mask plus zero/one-extent shapes, all eight index types int8..uint64 on every static/dynamic mask of rank 0..2 and three masks of rank 3 (int8 and size_t: every mask of rank 0..3, four of rank 4); '
+                'dynamic extents symbolic 0..8 and strides 1..64 for rank <= 2, 0..4 / 1..16 for rank 3, 0..3 / 1..8 for rank 4; mdarray container <= 64 elements',
 }
 ASSUMPTIONS = [
     'C19/mdspan: mapping precondition assumed: the size of the index space (and for layout_stride the required span size) is representable in the index type',
@@ -65,9 +65,11 @@ def shapes(tier):
         for ex in list(masks(4))[::5]:
             add('unsigned long', ex); add('signed char', ex)
     for it in its:
+        full = tier == 'quick' or it in ('signed char', 'unsigned long')
         for r in (0, 1, 2, 3):
-            for ex in masks(r):
-                add(it, ex)
+            for k, ex in enumerate(masks(r)):
+                if full or r < 3 or k in (0, 3, 7):
+                    add(it, ex)
         add(it, (0, D)); add(it, (D, 1, 0))
     return out
 
@@ -89,10 +91,11 @@ def queries(tier, prop='C19'):
         else:
             dmax, smax = {0: (8, 64), 1: (8, 64), 2: (8, 64), 3: (4, 16), 4: (3, 8)}[r]
             capmax = 64
-        cap = 1
+        sp = 1   # product of the static extents
         for x in ex:
-            cap *= dmax if x == D else x
-        cap = min(cap, capmax)   # mdarray container size; q_mda assumes the index space fits
+            sp *= 1 if x == D else x
+        # mdarray container size: all max extents if that fits capmax, never less than the static part (q_mda assumes the index space fits)
+        cap = min(sp * dmax ** sum(1 for x in ex if x == D), max(capmax, sp))
         oit = 'int' if it in ('long', 'unsigned long') else 'long'
         cfg = {'IT': it, 'OIT': oit, 'RANK': r, 'CAP': cap, 'DMAX': dmax, 'SMAX': smax}
         for k, x in enumerate(ex):
@@ -107,6 +110,8 @@ def queries(tier, prop='C19'):
             ents += ['q_conv_from_dyn', 'q_conv_to_dyn', 'q_md', 'q_mda']
             if not zs:
                 ents.append('q_md_ctor_all')
+        if r == 1:
+            ents.append('q_sub_pair')
         if r == 2:
             ents += ['q_trleft', 'q_trright', 'q_trleft_stride', 'q_trright_stride']
         for e in ents:
